@@ -28,6 +28,7 @@ DEPLOYMENTS = [
     ("jf-sym", 2.0),
     ("jf-open", 1.0),
     ("jr", 2.0),
+    ("jr-cluster", 1.0),
     ("rdb", 0.5),
     ("cached", 0.5),
     ("grpc(mem)", 1.5),
@@ -96,7 +97,9 @@ def gen_plan(seed: int, run: int, tier: str) -> dict:
         "pool": rng.choice([1, 2, 3, 10]),
         "snapshot_interval": rng.choice([2, 5, 100]),
         "share_study": share_study,
-        "reuse_dicts": rng.random() < 0.4,        "pickled_clients": rng.random() < 0.3,
+        "reuse_dicts": rng.random() < 0.4,
+        "pickled_clients": rng.random() < 0.3,
+        "redis_stalls": ([{"nth": rng.randint(0, 8), "dur": rng.choice([0.5, 15.0, 40.0])} for _ in range(rng.randint(1, 2))] if "jr" in kind and rng.random() < 0.35 else []),
     }
     # disk errors (journal file deployments): an fsync reports EIO although the record is
     # already in the file - the call fails, its effect is ambiguous
